@@ -21,7 +21,7 @@ APY_ABS = Fraction(1, 10**24)  # (1 + r/N)^N with N = 31 536 000 amplifies the 3
 QUANT = Fraction(1, 10**4)  # AaveBalance reports its totals / figures / APYs rounded to 1e-4
 PHASES = ["initialize", "before_bar", "trigger", "on_bar", "after_bar", "notify"]
 CACHES = ("_supplies_amount_cache", "_collaterals_amount_cache", "_borrows_amount_cache", "_supplies_cache", "_borrows_cache")
-READ_VIEWS = A.PROPERTY_VIEWS + A.METHOD_VIEWS + ("get_supply", "get_borrow", "get_max_repay_amount", "get_max_borrow_amount", "get_max_withdraw_amount")
+READ_VIEWS = A.PROPERTY_VIEWS + A.METHOD_VIEWS + ("get_supply", "get_borrow", "get_max_repay_amount", "get_max_borrow_amount", "get_max_withdraw_amount") + A.SIDE_VIEWS
 SWEEP_VIEWS = A.PROPERTY_VIEWS + A.METHOD_VIEWS
 
 
